@@ -91,6 +91,9 @@ pub struct Check {
     pub machinery: Vec<String>,
     /// violations whose schedule reproduced twice on fresh threads before being reported
     pub replays_confirmed: u64,
+    /// executions in which the endpoint busy-looped (no property speaks about that; reported as an observation)
+    pub busy_loops: u64,
+    pub busy_loop_sample: Option<Value>,
 }
 
 impl Check {
@@ -120,6 +123,8 @@ impl Check {
             finding_counts: BTreeMap::new(),
             machinery: Vec::new(),
             replays_confirmed: 0,
+            busy_loops: 0,
+            busy_loop_sample: None,
         }
     }
 
@@ -190,6 +195,12 @@ impl Check {
             "isolation": st.isolation,
         }));
         self.distinct_nontrivial += st.nontrivial_outcomes.len() as u64;
+        self.busy_loops += st.spin_execs;
+        if self.busy_loop_sample.is_none() {
+            if let Some(l) = &st.spin_sample {
+                self.busy_loop_sample = Some(json!({"scenario": scenario, "cfg_index": cfg_index, "events": l}));
+            }
+        }
         for v in &st.violations {
             // a violation is only believed if its schedule reproduces it, twice, on fresh OS threads
             // (no state shared with any other execution); otherwise it is a machinery problem, never a verdict
@@ -285,6 +296,8 @@ impl Check {
             "known_findings_hit": known_hits,
             "unknown_violation_classes": unknown,
             "violations_reproduced_twice_on_fresh_threads": self.replays_confirmed,
+            "busy_loop_executions": self.busy_loops,
+            "busy_loop_sample": self.busy_loop_sample,
         });
         for (k, v) in &self.extra {
             coverage[k] = v.clone();
